@@ -1152,3 +1152,300 @@ Proof.
   unfold ctx_new. destruct (config_valid cfg); [|discriminate].
   intros H; injection H as <-. exact I.
 Qed.
+
+(* ------------------------------------------------------------------------------------------ *)
+(* Frame level: a text message cut into frames is accepted iff the concatenation is valid       *)
+(* ------------------------------------------------------------------------------------------ *)
+(* the frame passes the checks that precede the opcode dispatch *)
+Definition guards_pass (x : ctx) (f : frame) : Prop :=
+  can_read (x_state x) = true /\
+  h_rsv1 (f_hdr f) = false /\ h_rsv2 (f_hdr f) = false /\ h_rsv3 (f_hdr f) = false /\
+  (x_role x = Client -> h_mask (f_hdr f) = None).
+
+Lemma guards_pass_eval x f : guards_pass x f ->
+  negb (can_read (x_state x)) = false /\
+  h_rsv1 (f_hdr f) || h_rsv2 (f_hdr f) || h_rsv3 (f_hdr f) = false /\
+  role_eqb (x_role x) Client && (match h_mask (f_hdr f) with Some _ => true | None => false end) = false.
+Proof.
+  intros [G0 [G1 [G2 [G3 G4]]]]. rewrite G0, G1, G2, G3. split; [reflexivity|]. split; [reflexivity|].
+  destruct (x_role x); [reflexivity|]. rewrite (G4 eq_refl). reflexivity.
+Qed.
+
+Lemma blen_app {A} (a b : list A) : blen (a ++ b) = blen a + blen b.
+Proof. unfold blen. rewrite app_length. lia. Qed.
+
+Lemma collector_len_bytes c : collector_len c = blen (coll_bytes c).
+Proof.
+  unfold collector_len, coll_bytes, inc_bytes. rewrite blen_app.
+  destruct (sc_inc c); reflexivity.
+Qed.
+
+Lemma incmsg_extend_text c tail lim : blen (coll_bytes c) + blen tail <= limit_of lim ->
+  incmsg_extend (ITxt c) tail lim =
+  match collector_extend c tail with
+  | COk c' => (ROk tt, ITxt c')
+  | CErrUtf8 c' => (RErr EUtf8, ITxt c')
+  | CPanic => (RPanic site_utf8_checked_sub, ITxt c)
+  end.
+Proof.
+  intros L. unfold incmsg_extend. cbn [incmsg_len]. rewrite collector_len_bytes.
+  destruct ((limit_of lim <? blen (coll_bytes c)) || (limit_of lim - blen (coll_bytes c) <? blen tail)) eqn:C; [lia|].
+  reflexivity.
+Qed.
+
+Lemma check_max_size_ok size lim : size <= limit_of lim -> check_max_size size lim = ROk tt.
+Proof.
+  unfold check_max_size, limit_of. destruct lim as [m|]; [|reflexivity].
+  intros L. destruct (m <? size) eqn:C; [lia | reflexivity].
+Qed.
+
+Lemma on_frame_single_text x f :
+  guards_pass x f -> h_opcode (f_hdr f) = OData Text -> h_fin (f_hdr f) = true ->
+  x_incomplete x = None -> blen (f_payload f) <= limit_of (cfg_max_message_size (x_cfg x)) ->
+  on_frame x f = (if is_utf8 (f_payload f) then ROk (Some (MText (f_payload f))) else RErr EUtf8, x).
+Proof.
+  intros G Ho Hf Hi L. apply guards_pass_eval in G. destruct G as [G0 [G1 G2]].
+  unfold on_frame. rewrite G0, G1, G2, Ho, Hf, Hi, (check_max_size_ok _ _ L).
+  destruct (is_utf8 (f_payload f)); reflexivity.
+Qed.
+
+Lemma on_frame_first_text x f :
+  guards_pass x f -> h_opcode (f_hdr f) = OData Text -> h_fin (f_hdr f) = false ->
+  x_incomplete x = None -> blen (f_payload f) <= limit_of (cfg_max_message_size (x_cfg x)) ->
+  on_frame x f =
+  match collector_extend collector_new (f_payload f) with
+  | COk c' => (ROk None, set_incomplete x (Some (ITxt c')))
+  | CErrUtf8 _ => (RErr EUtf8, x)
+  | CPanic => (RPanic site_utf8_checked_sub, x)
+  end.
+Proof.
+  intros G Ho Hf Hi L. apply guards_pass_eval in G. destruct G as [G0 [G1 G2]].
+  unfold on_frame. rewrite G0, G1, G2, Ho, Hf, Hi.
+  rewrite incmsg_extend_text by (change (coll_bytes collector_new) with (@nil N); unfold blen at 1; cbn [length]; lia).
+  destruct (collector_extend collector_new (f_payload f)); reflexivity.
+Qed.
+
+Lemma on_frame_continue_text x f c :
+  guards_pass x f -> h_opcode (f_hdr f) = OData Continue -> x_incomplete x = Some (ITxt c) ->
+  blen (coll_bytes c) + blen (f_payload f) <= limit_of (cfg_max_message_size (x_cfg x)) ->
+  on_frame x f =
+  match collector_extend c (f_payload f) with
+  | COk c' =>
+      if h_fin (f_hdr f) then
+        match collector_into_string c' with
+        | Some s => (ROk (Some (MText s)), set_incomplete (set_incomplete x (Some (ITxt c'))) None)
+        | None => (RErr EUtf8, set_incomplete (set_incomplete x (Some (ITxt c'))) None)
+        end
+      else (ROk None, set_incomplete x (Some (ITxt c')))
+  | CErrUtf8 c' => (RErr EUtf8, set_incomplete x (Some (ITxt c')))
+  | CPanic => (RPanic site_utf8_checked_sub, set_incomplete x (Some (ITxt c)))
+  end.
+Proof.
+  intros G Ho Hi L. apply guards_pass_eval in G. destruct G as [G0 [G1 G2]].
+  unfold on_frame. rewrite G0, G1, G2, Ho, Hi, (incmsg_extend_text _ _ _ L).
+  destruct (collector_extend c (f_payload f)) as [c'|c'|]; try reflexivity.
+  destruct (h_fin (f_hdr f)); [|reflexivity].
+  cbn [incmsg_complete]. destruct (collector_into_string c'); reflexivity.
+Qed.
+
+(* a text message cut into frames: Text then Continue*, FIN on the last frame only *)
+Fixpoint frag_shape (first : bool) (fs : list frame) : Prop :=
+  match fs with
+  | [] => False
+  | f :: r =>
+      h_opcode (f_hdr f) = OData (if first then Text else Continue) /\
+      match r with
+      | [] => h_fin (f_hdr f) = true
+      | _ :: _ => h_fin (f_hdr f) = false /\ frag_shape false r
+      end
+  end.
+
+(* hand the frames to the protocol layer one by one, as successive read calls do, until something
+   other than "no message yet" comes out *)
+Fixpoint feed (x : ctx) (fs : list frame) : res (option message) * ctx :=
+  match fs with
+  | [] => (ROk None, x)
+  | f :: r => match on_frame x f with (ROk None, x') => feed x' r | other => other end
+  end.
+
+Definition payloads (fs : list frame) : bytes := concat (map f_payload fs).
+
+Lemma guards_pass_set_incomplete x i f : guards_pass x f -> guards_pass (set_incomplete x i) f.
+Proof. intros G. exact G. Qed.
+
+Lemma is_utf8_false_iff bs : is_utf8 bs = false <-> ~ valid_utf8 bs.
+Proof.
+  rewrite <- is_utf8_iff. destruct (is_utf8 bs); split; intros H; try reflexivity; try discriminate H.
+  - exfalso. apply H. reflexivity.
+  - intros C. discriminate C.
+Qed.
+
+Lemma feed_continue fs : forall x c,
+  x_incomplete x = Some (ITxt c) -> coll_wf c ->
+  Forall (guards_pass x) fs -> frag_shape false fs ->
+  blen (coll_bytes c ++ payloads fs) <= limit_of (cfg_max_message_size (x_cfg x)) ->
+  fst (feed x fs) =
+  if is_utf8 (coll_bytes c ++ payloads fs) then ROk (Some (MText (coll_bytes c ++ payloads fs))) else RErr EUtf8.
+Proof.
+  induction fs as [|f r IH]; intros x c Hi W G Sh L; [destruct Sh|].
+  unfold payloads in *. cbn [map concat] in *.
+  destruct Sh as [Ho Sh]. cbn [feed].
+  pose proof (Forall_inv G) as Gf. pose proof (Forall_inv_tail G) as Gr.
+  rewrite !blen_app in L.
+  rewrite (on_frame_continue_text x f c Gf Ho Hi) by lia.
+  pose proof (collector_extend_spec c (f_payload f) W) as X.
+  destruct (collector_extend c (f_payload f)) as [c'|c'|].
+  - destruct X as [W' B'].
+    destruct r as [|f' r'].
+    + rewrite Sh. cbn [concat]. rewrite app_nil_r, <- B'.
+      pose proof (coll_wf_valid_iff c' W') as VI.
+      unfold collector_into_string.
+      destruct (sc_inc c') as [i|] eqn:Ei; cbn [fst].
+      * replace (is_utf8 (coll_bytes c')) with false; [reflexivity|].
+        symmetry. apply is_utf8_false_iff. intros V. apply VI in V. discriminate V.
+      * replace (is_utf8 (coll_bytes c')) with true.
+        -- unfold coll_bytes, inc_bytes. rewrite Ei, app_nil_r. reflexivity.
+        -- symmetry. apply is_utf8_iff. apply VI. reflexivity.
+    + destruct Sh as [Hf Sh]. rewrite Hf.
+      rewrite (IH (set_incomplete x (Some (ITxt c'))) c' eq_refl W' Gr Sh).
+      * rewrite B', <- app_assoc. reflexivity.
+      * rewrite B', !blen_app. cbn [x_cfg set_incomplete]. unfold payloads. lia.
+  - destruct X as [_ B']. cbn [fst].
+    replace (is_utf8 _) with false; [reflexivity|].
+    symmetry. apply is_utf8_false_iff. apply B'.
+  - destruct X.
+Qed.
+
+Theorem feed_text_message x fs :
+  x_incomplete x = None ->
+  Forall (guards_pass x) fs -> frag_shape true fs ->
+  blen (payloads fs) <= limit_of (cfg_max_message_size (x_cfg x)) ->
+  fst (feed x fs) =
+  if is_utf8 (payloads fs) then ROk (Some (MText (payloads fs))) else RErr EUtf8.
+Proof.
+  intros Hi G Sh L. destruct fs as [|f r]; [destruct Sh|].
+  unfold payloads in *. cbn [map concat] in *. destruct Sh as [Ho Sh]. cbn [feed].
+  pose proof (Forall_inv G) as Gf. pose proof (Forall_inv_tail G) as Gr.
+  rewrite blen_app in L.
+  destruct r as [|f' r'].
+  - cbn [concat map] in *. rewrite app_nil_r.
+    rewrite (on_frame_single_text x f Gf Ho Sh Hi) by lia.
+    destruct (is_utf8 (f_payload f)); reflexivity.
+  - destruct Sh as [Hf Sh].
+    rewrite (on_frame_first_text x f Gf Ho Hf Hi) by lia.
+    pose proof (collector_extend_spec collector_new (f_payload f) coll_wf_new) as X.
+    change (coll_bytes collector_new) with (@nil N) in X. cbn [app] in X.
+    destruct (collector_extend collector_new (f_payload f)) as [c'|c'|].
+    + destruct X as [W' B'].
+      rewrite (feed_continue (f' :: r') (set_incomplete x (Some (ITxt c'))) c' eq_refl W' Gr Sh).
+      * rewrite B'. reflexivity.
+      * rewrite B', blen_app. cbn [x_cfg set_incomplete]. unfold payloads. lia.
+    + destruct X as [_ B']. cbn [fst].
+      replace (is_utf8 _) with false; [reflexivity|].
+      symmetry. apply is_utf8_false_iff. apply B'.
+    + destruct X.
+Qed.
+
+(* ------------------------------------------------------------------------------------------ *)
+(* spec-level reading of the collector invariant                                                *)
+(* ------------------------------------------------------------------------------------------ *)
+(* a proper non-empty prefix of the encoding of one character *)
+Definition proper_char_prefix (i : bytes) : Prop :=
+  i <> [] /\ exists t, t <> [] /\ valid_char (i ++ t).
+
+Lemma step_whole_valid_char c : c <> [] -> step c = SChar (length c) -> valid_char c.
+Proof.
+  intros NE S. split; [|split; [exact NE|]].
+  - apply step_char_valid with (n := length c); [exact S | rewrite skipn_all; constructor].
+  - intros k Lk V.
+    destruct (valid_step _ V) as [m [Sm _]].
+    + destruct c; [congruence|]. destruct k; [lia | discriminate].
+    + pose proof (step_char_len _ _ Sm) as Lm. rewrite firstn_length in Lm.
+      pose proof (step_ext_char _ (skipn k c) _ Sm) as S'. rewrite firstn_skipn, S in S'.
+      injection S' as S'. lia.
+Qed.
+
+Lemma step_incomplete_iff i : step i = SIncomplete <-> proper_char_prefix i.
+Proof.
+  split.
+  - intros S. split; [intros ->; discriminate S|].
+    destruct (step_incomplete_completable _ S) as [t [NE St]].
+    exists t. split; [exact NE|]. apply step_whole_valid_char; [|exact St].
+    intros E. apply app_eq_nil in E. destruct E as [_ E]. exact (NE E).
+  - intros [NE [t [NEt [V [_ Min]]]]].
+    assert (Lt : (length i < length (i ++ t))%nat)
+      by (rewrite app_length; destruct t; [congruence | cbn [length]; lia]).
+    destruct (step i) as [|m|m|] eqn:S; [ | | | reflexivity].
+    + apply step_empty in S. congruence.
+    + exfalso. pose proof (step_char_len _ _ S) as Lm.
+      apply (Min m); [lia|].
+      rewrite firstn_app. replace (m - length i)%nat with 0%nat by lia. cbn [firstn]. rewrite app_nil_r.
+      apply valid_firstn_char. exact S.
+    + exfalso. exact (step_not_valid_invalid _ _ S t V).
+Qed.
+
+Theorem collector_invariant fs c : collector_run collector_new fs = COk c ->
+  sc_data c ++ inc_bytes c = concat fs /\ valid_utf8 (sc_data c) /\
+  match sc_inc c with Some i => proper_char_prefix i | None => True end.
+Proof.
+  intros E. pose proof (collector_run_spec fs collector_new coll_wf_new) as R. rewrite E in R.
+  destruct R as [[Vd Wi] B]. split; [exact B|]. split; [exact Vd|].
+  destruct (sc_inc c) as [i|]; [apply step_incomplete_iff; exact Wi | exact I].
+Qed.
+
+(* read_message_frame on a frame delivered by read_frame *)
+Lemma rmf_on_frame x w f c1 w1 :
+  read_frame (cfg_max_frame_size (x_cfg x)) (role_eqb (x_role x) Server) (cfg_accept_unmasked (x_cfg x))
+             (x_codec x) w = (ROk (Some f), c1, w1) ->
+  read_message_frame x w = (fst (on_frame (set_codec x c1) f), snd (on_frame (set_codec x c1) f), w1).
+Proof.
+  intros E. rewrite rmf_unfold, E. cbn [check_connection_reset]. cbv zeta.
+  change (set_state (set_codec x c1) (x_state x)) with (set_codec x c1).
+  destruct (on_frame (set_codec x c1) f) as [r x2]. reflexivity.
+Qed.
+
+Theorem rmf_single_text x w f c1 w1 :
+  read_frame (cfg_max_frame_size (x_cfg x)) (role_eqb (x_role x) Server) (cfg_accept_unmasked (x_cfg x))
+             (x_codec x) w = (ROk (Some f), c1, w1) ->
+  guards_pass x f -> h_opcode (f_hdr f) = OData Text -> h_fin (f_hdr f) = true ->
+  x_incomplete x = None -> blen (f_payload f) <= limit_of (cfg_max_message_size (x_cfg x)) ->
+  (valid_utf8 (f_payload f) ->
+     read_message_frame x w = (ROk (Some (MText (f_payload f))), set_codec x c1, w1)) /\
+  (~ valid_utf8 (f_payload f) -> read_message_frame x w = (RErr EUtf8, set_codec x c1, w1)).
+Proof.
+  intros E G Ho Hf Hi L. rewrite (rmf_on_frame _ _ _ _ _ E).
+  rewrite (on_frame_single_text (set_codec x c1) f G Ho Hf Hi L). cbn [fst snd].
+  split; intros V.
+  - apply is_utf8_iff in V. rewrite V. reflexivity.
+  - apply is_utf8_false_iff in V. rewrite V. reflexivity.
+Qed.
+
+(* a Close frame with a reason: rejected with Utf8 iff the reason is invalid; otherwise the reason reported
+   to the user is exactly the reason on the wire (or the fixed ASCII text when the code is not allowed) *)
+Definition protocol_violation_text : bytes :=
+  [80; 114; 111; 116; 111; 99; 111; 108; 32; 118; 105; 111; 108; 97; 116; 105; 111; 110].
+
+Theorem on_frame_close_reason x f a b reason :
+  guards_pass x f -> h_opcode (f_hdr f) = OCtl Close -> h_fin (f_hdr f) = true ->
+  blen (f_payload f) <= 125 -> f_payload f = a :: b :: reason ->
+  let code := close_of_u16 (from_be [a; b]) in
+  (~ valid_utf8 reason -> on_frame x f = (RErr EUtf8, x)) /\
+  (valid_utf8 reason ->
+     (x_state x = ClosedByUs -> fst (on_frame x f) = ROk (Some (MClose (Some (code, reason))))) /\
+     (x_state x = Active -> close_allowed code = true ->
+        fst (on_frame x f) = ROk (Some (MClose (Some (code, reason))))) /\
+     (x_state x = Active -> close_allowed code = false ->
+        fst (on_frame x f) = ROk (Some (MClose (Some (CProtocol, protocol_violation_text)))))).
+Proof.
+  intros G Ho Hf L Ep code. apply guards_pass_eval in G. destruct G as [G0 [G1 G2]].
+  unfold on_frame. rewrite G0, G1, G2, Ho, Hf. cbn [negb].
+  destruct (125 <? blen (f_payload f)) eqn:C; [lia|].
+  rewrite Ep, frame_into_close_long. fold code.
+  split; intros V.
+  - apply is_utf8_false_iff in V. rewrite V. reflexivity.
+  - apply is_utf8_iff in V. rewrite V. unfold do_close.
+    split; [|split].
+    + intros ->. reflexivity.
+    + intros -> ->. reflexivity.
+    + intros -> ->. reflexivity.
+Qed.
